@@ -54,8 +54,10 @@ ASSUMPTIONS = [
     'limit parameters (<p>_min, <p>_max, <p>_limits in every combination) only on int/float/scaled parameters',
     'check_<p> hooks and driver functions are user code: hooks are arbitrary functions of (value, cache) in the theorems and the '
     'three generated shapes in the correspondence; the driver follows a per-request script; neither touches the module otherwise',
-    'export_value of a validated value does not fail (since fix 45926fd also for nested structs lacking optional members); the model '
-    'keeps the failing branch (store, then WrongType) and C04_error_clean_except_unexportable carries it as explicit exception',
+    'export_value of a validated value does not fail: no longer assumed, proved as C04_validated_values_export (in_setb -> exportable, '
+    'every datatype tree); C04_error_clean (no exception) holds in every state reachable from a cache whose values lie in their value '
+    'sets (cache_ok, preserved: C04_history_invariant); the model keeps the failing branch (store, then WrongType) because the code has '
+    'it, and C04_error_clean_except_unexportable is the statement for arbitrary caches',
     'exported names are unique within the module (accessiblename2attr is a dict; the model takes the first match)',
 ]
 
